@@ -356,6 +356,12 @@ func (r *fileRewriter) rewriteCall(c *ast.CallExpr, cfg pkgConfig) {
 		r.counts["R3.open"]++
 		return
 	}
+	if cfg.output && (isPkgFunc(r.info, c.Fun, "os", "OpenFile")) {
+		// the events output opened directly: keep the flags, they matter (O_APPEND)
+		r.repl(sel.Pos(), sel.End(), "simrt.OpenOutputFile")
+		r.counts["R3.output_direct"]++
+		return
+	}
 	if cfg.output && isPkgFunc(r.info, c.Fun, "github.com/metal-toolbox/auditevent/helpers", "OpenAuditLogFileUntilSuccessWithContext") {
 		r.repl(sel.Pos(), sel.End(), "simrt.OpenOutput")
 		r.counts["R3.output"]++
@@ -673,7 +679,7 @@ func main() {
 				}
 				switch path {
 				case "os":
-					if r.counts["R3.open"]+r.counts["R3.osFile"] > 0 {
+					if r.counts["R3.open"]+r.counts["R3.osFile"]+r.counts["R3.output_direct"] > 0 {
 						keep = append(keep, "var _ = os.ErrClosed")
 					}
 				case "github.com/metal-toolbox/auditevent/helpers":
